@@ -11,7 +11,11 @@
 //!   * ResourceDatabaseChecker   — supplies vs vault sums, vault indices (application layer);
 //!   * RoleAssignmentDatabaseChecker — stored access rules / role keys are valid.
 //! Direct oracle = "all four checkers accept the database". Additionally the harness checks with
-//! its own scan that every vault's outer object is a stored resource manager of the right kind.
+//! its own scan that every vault's outer object is a stored resource manager of the right kind, and
+//! — the repository's checkers do not compare them — that EVERY stored node's entity type (first
+//! byte of its id) matches the blueprint recorded in its type-info substate, using the harness's
+//! own blueprint -> entity type table (written from the documentation of `EntityType`, not by
+//! calling `id_allocation.rs`); key-value stores must have the key-value-store entity type.
 //! The ownership mechanism itself is the Coq model Model/C05_Kernel.v (theorem C05_ownership_forest);
 //! there are no per-case model evaluations for this property (the kernel has no stand-alone public
 //! driver); the case written per history is the final (stored node, owner) relation extracted from
@@ -75,6 +79,83 @@ fn ownership(world: &World) -> (BTreeMap<NodeId, Vec<NodeId>>, BTreeSet<NodeId>)
     (owners, nodes)
 }
 
+/// the entity types a node of the given native blueprint may have (None = not a native blueprint
+/// with a dedicated entity type: generic component)
+fn expected_entity_types(package: &PackageAddress, blueprint: &str, global: bool) -> Vec<EntityType> {
+    use EntityType as E;
+    let generic = if global { vec![E::GlobalGenericComponent] } else { vec![E::InternalGenericComponent] };
+    if *package == PACKAGE_PACKAGE && blueprint == "Package" {
+        vec![E::GlobalPackage]
+    } else if *package == RESOURCE_PACKAGE {
+        match blueprint {
+            "FungibleResourceManager" => vec![E::GlobalFungibleResourceManager],
+            "NonFungibleResourceManager" => vec![E::GlobalNonFungibleResourceManager],
+            "FungibleVault" => vec![E::InternalFungibleVault],
+            "NonFungibleVault" => vec![E::InternalNonFungibleVault],
+            _ => generic,
+        }
+    } else if *package == ACCOUNT_PACKAGE && blueprint == "Account" {
+        vec![E::GlobalAccount, E::GlobalPreallocatedSecp256k1Account, E::GlobalPreallocatedEd25519Account]
+    } else if *package == IDENTITY_PACKAGE && blueprint == "Identity" {
+        vec![E::GlobalIdentity, E::GlobalPreallocatedSecp256k1Identity, E::GlobalPreallocatedEd25519Identity]
+    } else if *package == CONSENSUS_MANAGER_PACKAGE {
+        match blueprint {
+            "ConsensusManager" => vec![E::GlobalConsensusManager],
+            "Validator" => vec![E::GlobalValidator],
+            _ => generic,
+        }
+    } else if *package == ACCESS_CONTROLLER_PACKAGE && blueprint == "AccessController" {
+        vec![E::GlobalAccessController]
+    } else if *package == POOL_PACKAGE {
+        match blueprint {
+            "OneResourcePool" => vec![E::GlobalOneResourcePool],
+            "TwoResourcePool" => vec![E::GlobalTwoResourcePool],
+            "MultiResourcePool" => vec![E::GlobalMultiResourcePool],
+            _ => generic,
+        }
+    } else if *package == TRANSACTION_TRACKER_PACKAGE && blueprint == "TransactionTracker" {
+        vec![E::GlobalTransactionTracker]
+    } else if *package == LOCKER_PACKAGE && blueprint == "AccountLocker" {
+        vec![E::GlobalAccountLocker]
+    } else {
+        generic
+    }
+}
+
+fn entity_type_violations(world: &World) -> Vec<String> {
+    let db = world.db();
+    let reader = SystemDatabaseReader::new(db);
+    let mut nodes: BTreeSet<NodeId> = BTreeSet::new();
+    for (n, _) in db.read_partition_keys() {
+        nodes.insert(n);
+    }
+    let mut bad = Vec::new();
+    for n in nodes {
+        let Some(et) = n.entity_type() else {
+            bad.push(format!("node {:?} has no entity type", n));
+            continue;
+        };
+        match reader.get_type_info(&n) {
+            Ok(TypeInfoSubstate::Object(info)) => {
+                let id = &info.blueprint_info.blueprint_id;
+                let exp = expected_entity_types(&id.package_address, &id.blueprint_name, info.is_global());
+                if !exp.contains(&et) {
+                    bad.push(format!("node {:?} has entity type {:?} but is a {}{} (expected one of {:?})", n, et, if info.is_global() { "global " } else { "internal " }, id.blueprint_name, exp));
+                }
+            }
+            Ok(TypeInfoSubstate::KeyValueStore(_)) => {
+                if et != EntityType::InternalKeyValueStore {
+                    bad.push(format!("key-value store {:?} has entity type {:?}", n, et));
+                }
+            }
+            Ok(_) => {}
+            Err(e) => bad.push(format!("node {:?} has no readable type info: {:?}", n, e)),
+        }
+    }
+    bad.truncate(5);
+    bad
+}
+
 fn main() {
     let args = Args::parse();
     let mut report = Report::new(
@@ -90,7 +171,14 @@ fn main() {
     let mut done = 0usize;
     for h in 0..nh {
         let hroot = root.fork(2_000_000 + h as u64);
-        let mut world = World::new();
+        let mut world = match World::try_new() {
+        Ok(w) => w,
+        Err(msg) => {
+            report.oracle_failure(0, "", &format!("the engine failed while bootstrapping the ledger and creating accounts: {}", msg.chars().take(400).collect::<String>()), json!({"phase": "bootstrap", "seed": args.seed}));
+            report.write(&args.out).unwrap();
+            return;
+        }
+    };
         let mut nodes_before = scan(world.db()).nodes;
         let n = per.min(args.cases.saturating_sub(done)).max(1);
         for i in 0..n {
@@ -109,10 +197,10 @@ fn main() {
             if !matches!(receipt.result, TransactionResult::Commit(_)) {
                 continue;
             }
-            let bad = run_checkers(&world);
+            let mut bad = run_checkers(&world);
+            bad.extend(entity_type_violations(&world));
             report.count("checker_runs");
             let s = scan(world.db());
-            let mut bad = bad;
             for (v, (r, _)) in &s.fvaults {
                 if !s.res.get(r).map(|i| !i.nf).unwrap_or(false) {
                     bad.push(format!("fungible vault {:?} belongs to {:?} which is not a stored fungible resource manager", v, r));
@@ -150,7 +238,6 @@ fn main() {
                 coq_list(os.iter().map(|o| coq_n(*idx.get(o).unwrap_or(&u64::MAX))))
             ));
         }
-        let _ = SystemDatabaseReader::new(world.db()).get_type_info(nodes.iter().next().unwrap()).map(|t| matches!(t, TypeInfoSubstate::Object(_)));
         report.count_n("nodes_in_final_relations", nodes.len() as u64);
         cw.push(coq_list(entries));
     }
